@@ -929,6 +929,9 @@ PBT_REGRESSION(server_chunk_size_sign_and_prefix_rejected)
 PBT_REGRESSION(server_chunk_data_without_crlf_rejected)
 {
   regressServer(c, std::string("POST /z HTTP/1.1\r\nHost: h\r\nTransfer-Encoding: chunked\r\n\r\n5\r\nhelloXX\r\n0\r\n\r\n") + kFollowUp, 0, refhttp::Tail::BadLength);
+  if (c.failed()) return;
+  // skipping two octets blindly would find a valid last chunk here
+  regressServer(c, std::string("POST /z HTTP/1.1\r\nHost: h\r\nTransfer-Encoding: chunked\r\n\r\n5\r\nhelloXX0\r\n\r\n") + kFollowUp, 0, refhttp::Tail::BadLength);
 }
 PBT_REGRESSION(server_trailers_do_not_misframe_next_request)
 {
@@ -993,7 +996,7 @@ PBT_REGRESSION(client_invalid_lengths_rejected)
   for (std::string w : {"HTTP/1.1 200 OK\r\nContent-Length: 12abc\r\n\r\nabcdefghijkl", "HTTP/1.1 200 OK\r\nContent-Length: +5\r\n\r\nhello",
                         "HTTP/1.1 200 OK\r\nContent-Length: 5\r\nContent-Length: 6\r\n\r\nhello!", "HTTP/1.1 200 OK\r\nContent-Length: 18446744073709551621\r\n\r\nhello",
                         "HTTP/1.1 200 OK\r\nTransfer-Encoding: chunked\r\n\r\nzz\r\nhello\r\n0\r\n\r\n", "HTTP/1.1 200 OK\r\nTransfer-Encoding: chunked\r\n\r\n10000000000000005\r\nhello\r\n0\r\n\r\n",
-                        "HTTP/1.1 200 OK\r\nTransfer-Encoding: chunked\r\n\r\n5\r\nhelloXX\r\n0\r\n\r\n"})
+                        "HTTP/1.1 200 OK\r\nTransfer-Encoding: chunked\r\n\r\n5\r\nhelloXX\r\n0\r\n\r\n", "HTTP/1.1 200 OK\r\nTransfer-Encoding: chunked\r\n\r\n5\r\nhelloXX0\r\n\r\n"})
   {
     regressClient(c, "GET", w, false);
     if (c.failed()) return;
